@@ -16,11 +16,11 @@ RULE = ('molecules of 1..12 fragments on a random reference: random overlaps bet
         'equal and unequal mate qualities at disagreeing positions, single-end fragments, fragments without R1, dove-tailed mates; '
         'get_consensus() and get_consensus(dove_safe=True); all insertion orders for n<=5 (50 sampled beyond) and duplication of every '
         'fragment. Non-trivial = molecule with at least one tied position or mate disagreement; distinct = distinct (molecule seed, variant).'
-        ' Plus both request forms (plain / with_probs_and_obs), alternating plain and dove-safe requests on shared Fragment objects, growth histories, molecules of 255-300 stacked fragments.')
+        ' Plus both request forms (plain / with_probs_and_obs), alternating plain and dove-safe requests on shared Fragment objects, growth histories, molecules of 255-300 stacked fragments, reads with insertions, deletions and skips (also of equal total length within one read).')
 ASSUMPTIONS = ['fragments are forced into one molecule through the internal add so the equality rules do not filter the input',
                'each fragment with a read 1 contributes one call per position: the higher-quality mate; equal quality with different bases, or N: no vote']
 MIN_NONTRIVIAL = {'quick': 300, 'thorough': 30000}
-REQUIRED_MONITORS = ['ret:get_consensus', 'ret:get_consensus_dove_safe', 'oracle:positions_compared', 'oracle:tied_positions', 'meta:permutations', 'meta:duplications', 'history:repeated_requests', 'history:grown_molecule', 'lib:deep_molecules', 'ret:get_consensus_with_probs_and_obs', 'ret:get_consensus_base']
+REQUIRED_MONITORS = ['ret:get_consensus', 'ret:get_consensus_dove_safe', 'oracle:positions_compared', 'oracle:tied_positions', 'meta:permutations', 'meta:duplications', 'history:repeated_requests', 'history:grown_molecule', 'lib:deep_molecules', 'ret:get_consensus_with_probs_and_obs', 'ret:get_consensus_base', 'lib:gapped_reads']
 SHARD_TIMEOUT = {'quick': 900, 'thorough': 5400}
 REF_LEN = 400
 
@@ -41,6 +41,64 @@ def mutate(r, ref_sub, p_mm, p_n):
         else:
             out.append(c)
     return ''.join(out)
+
+
+GAPPED = [0]
+
+
+def gap_read(r, ref, a, seq):
+    """turn the ungapped read `seq` (aligned at a) into a gapped alignment: insertion(s) and deletion(s) / skips, also of equal total length
+    (the read then spans exactly as many reference bases as it has bases). Returns (cigar, seq, MD, NM) or None when the read is too short."""
+    n = len(seq)
+    if n < 24 or a + n + 6 > len(ref):
+        return None
+    style = r.choice(['ins', 'del', 'ins_del', 'del_ins', 'ins_skip', 'ins_del'])
+    k = r.randint(1, 3)
+    p1 = r.randint(5, n // 2 - 3)
+    p2 = r.randint(n // 2 + 1, n - 6 - k)
+    ins = ''.join(r.choice('ACGT') for _ in range(k))
+    # ops: list of (op, length); the read bases of the M parts are taken from `seq` (already mutated), shifted as the gaps demand
+    if style == 'ins':
+        ops = [('M', p1), ('I', k), ('M', n - p1 - k)]
+    elif style == 'del':
+        ops = [('M', p1), ('D', k), ('M', n - p1)]
+    elif style == 'ins_del':
+        ops = [('M', p1), ('I', k), ('M', p2 - p1), ('D', k), ('M', n - p2 - k)]
+    elif style == 'del_ins':
+        ops = [('M', p1), ('D', k), ('M', p2 - p1), ('I', k), ('M', n - p2 - k)]
+    else:
+        ops = [('M', p1), ('I', k), ('M', p2 - p1), ('N', k), ('M', n - p2 - k)]
+    out, md, nm, run = [], [], 0, 0
+    rp = a
+    qi = 0
+    for op, ln in ops:
+        if op == 'M':
+            for j in range(ln):
+                # keep what the ungapped read showed relative to ITS reference base: a match stays a match, a mismatch / N keeps its read base
+                b = seq[qi] if seq[qi] != ref[a + qi] else ref[rp + j]
+                qi += 1
+                out.append(b)
+                if b == ref[rp + j]:
+                    run += 1
+                else:
+                    md.append(str(run))
+                    md.append(ref[rp + j])
+                    run = 0
+                    nm += 1
+            rp += ln
+        elif op == 'I':
+            out.append(ins)
+            nm += ln
+        elif op == 'D':
+            md.append(str(run))
+            md.append('^' + ref[rp:rp + ln])
+            run = 0
+            nm += ln
+            rp += ln
+        else:
+            rp += ln
+    md.append(str(run))
+    return ''.join(f'{ln}{op}' for op, ln in ops), ''.join(out), ''.join(md), nm
 
 
 def make_frag_spec(r, ref, fid, hot, stacked=False):
@@ -97,11 +155,17 @@ def make_frag_spec(r, ref, fid, hot, stacked=False):
                 seq[h - a] = r.choice('ACGTN')
         seq = ''.join(seq)
         md, nm = md_nm(sub, seq)
+        cigar = f'{len(seq)}M'
+        if not stacked and r.random() < 0.12:
+            g = gap_read(r, ref, a, seq)
+            if g is not None:
+                cigar, seq, md, nm = g
+                GAPPED[0] += 1
         rev = reverse if who == 1 else (not reverse)
         if kind == 'same_orientation' and who == 2:
             rev = reverse
         flag = 1 | (64 if who == 1 else 128) | (16 if rev else 0)
-        recs.append({'name': f'f{fid}', 'flag': flag, 'tid': 0, 'pos': a, 'mapq': 60, 'cigar': f'{len(seq)}M', 'seq': seq, 'qual': quals(len(seq), who),
+        recs.append({'name': f'f{fid}', 'flag': flag, 'tid': 0, 'pos': a, 'mapq': 60, 'cigar': cigar, 'seq': seq, 'qual': quals(len(seq), who),
                      'tags': {'MD': md, 'NM': nm, 'SM': 'cell', 'RX': 'ACG'}, 'next_tid': 0, 'next_pos': 0})
     if kind == 'single':
         recs[1] = None
@@ -196,6 +260,7 @@ def run_case(case):
     from singlecellmultiomics.fragment import Fragment
     from singlecellmultiomics.molecule import Molecule
     acc = Acc()
+    GAPPED[0] = 0
     r = rng(case['seed'], 'C13', case['i'])
     ref = rand_dna(r, REF_LEN)
     header = make_header([('chr1', REF_LEN)])
@@ -326,4 +391,5 @@ def run_case(case):
                                                         f'second answer correct={after == exps[dove]} (dove_safe={dove})', dict(wit, cut=cut, dove_safe=dove))
     acc.sample = {'fragments': n, 'kinds': [f['kind'] for f in frags], 'hot_positions': hot,
                   'first_fragment': [(x['flag'], x['pos'], x['seq']) if x else None for x in frags[0]['recs']]}
+    acc.count('lib:gapped_reads', GAPPED[0])
     return acc
